@@ -403,7 +403,7 @@ package cert
 // "PRIVATE KEY" is handed to ParsePKCS8PrivateKey; other blocks are skipped; anything left over after the last block,
 // or a block that does not parse, is an error (C17: any combination of hash line, certificate, key and request).
 //@ func ReadPem returns (res, err)
-//@   props C17 C14 C20
+//@   props C17 C14 C20 C11
 //@   uses pem.smt2
 //@   noslicefacts
 //@   let D0 = old(bytes(pemBytes))
@@ -416,12 +416,17 @@ package cert
 //@   ensures @C17,C14 err == nil && res.Request != nil ==> deep(deref(res.Request)) == pemLastD(D0, 2, #noDeep)
 //@   ensures @C17,C14 err == nil ==> ((res.PrivateKey != nil) <==> pemAny(D0, 3, false))
 //@   ensures @C20,C17,C14 res.PrivateKey != nil ==> unboxRef(res.PrivateKey) != 0
+// (C11, C14: text after the last block is reported as an error, but what the blocks held is still returned - importPem
+// logs the error and stores the content, so a hand-edited artifact file does not make its certificate and key "missing")
+//@   let NOBLK = callres("encoding/pem.Decode", 0, 0) == nil
+//@   ensures @C11,C14 NOBLK ==> ((res.Certificate != nil) <==> pemAny(D0, 1, false)) && ((res.Request != nil) <==> pemAny(D0, 2, false)) && ((res.PrivateKey != nil) <==> pemAny(D0, 3, false))
+//@   ensures @C11,C14 NOBLK && res.Certificate != nil ==> deep(deref(res.Certificate)) == pemLastD(D0, 1, #noDeep)
 //@   loop 1
-//@     invariant @C17,C14 pemTail(CUR) == pemTail(D0)
-//@     invariant @C17,C14 pemAny(CUR, 1, pemFileContent.Certificate != nil) == pemAny(D0, 1, false) && pemAny(CUR, 2, pemFileContent.Request != nil) == pemAny(D0, 2, false)
-//@     invariant @C17,C14 pemLastD(CUR, 1, ACCC) == pemLastD(D0, 1, #noDeep)
-//@     invariant @C17,C14 pemLastD(CUR, 2, ACCR) == pemLastD(D0, 2, #noDeep)
-//@     invariant @C17,C14 pemAny(CUR, 3, pemFileContent.PrivateKey != nil) == pemAny(D0, 3, false)
+//@     invariant @C17,C14,C11 pemTail(CUR) == pemTail(D0)
+//@     invariant @C17,C14,C11 pemAny(CUR, 1, pemFileContent.Certificate != nil) == pemAny(D0, 1, false) && pemAny(CUR, 2, pemFileContent.Request != nil) == pemAny(D0, 2, false)
+//@     invariant @C17,C14,C11 pemLastD(CUR, 1, ACCC) == pemLastD(D0, 1, #noDeep)
+//@     invariant @C17,C14,C11 pemLastD(CUR, 2, ACCR) == pemLastD(D0, 2, #noDeep)
+//@     invariant @C17,C14,C11 pemAny(CUR, 3, pemFileContent.PrivateKey != nil) == pemAny(D0, 3, false)
 //@     invariant @C20,C17,C14 pemFileContent.PrivateKey != nil ==> unboxRef(pemFileContent.PrivateKey) != 0
 
 // ---- EC private keys and PKCS#8 (C17, C14)
@@ -497,15 +502,16 @@ package cert
 //@   ensures @C17,C14 err == nil && bound(P8) && bound(ECKEY) && bound(ECERR) && oidv(P8.Algo.Algorithm) != oid("1.2.840.113549.1.1.1") ==> ECERR == nil && typeis(key, "*crypto/ecdsa.PrivateKey") && unboxRef(key) == ECKEY
 // in terms of the input (rt.smt2), and the converse for EC keys: the curve comes from the algorithm parameters when they
 // are an OBJECT IDENTIFIER, else from the inner structure
+// (C14: a stored key is kept only if it is accepted again, also when another tool wrote it with the curve named in the inner structure only)
 //@   let PB = old(bytes(der))
 //@   let INNER = p8Key(PB)
 //@   let CINP = (if isOidDer(p8Params(PB)) then curveOfOid(oidParse(p8Params(PB))) else curveOfOid(ecOidOf(INNER)))
 //@   let KP = typed(unboxRef(key), "*crypto/ecdsa.PrivateKey")
-//@   ensures @C17 err == nil ==> isP8Der(PB)
-//@   ensures @C17 err == nil && p8Alg(PB) == oid("1.2.840.10045.2.1") ==> typeis(key, "*crypto/ecdsa.PrivateKey") && isEcDer(INNER) && ecVer(INNER) == 1 && CINP >= 4 && curveId(KP.Curve) == CINP && BigVal(KP.D) == be(ecScalar(INNER)) && BigVal(KP.X) == sbmX(CINP, be(ecScalar(INNER))) && BigVal(KP.Y) == sbmY(CINP, be(ecScalar(INNER)))
-//@   ensures @C17 err == nil && p8Alg(PB) == oid("1.2.840.113549.1.1.1") ==> typeis(key, "*crypto/rsa.PrivateKey") && pkcs1priv(unboxRef(key)) == INNER
-//@   ensures @C17 isP8Der(PB) && p8Alg(PB) == oid("1.2.840.113549.1.1.1") && isPkcs1(INNER) ==> err == nil
-//@   ensures @C17 isP8Der(PB) && p8Alg(PB) == oid("1.2.840.10045.2.1") && isEcDer(INNER) && ecVer(INNER) == 1 && CINP >= 4 && be(ecScalar(INNER)) < curveOrder(CINP) && blen(ecScalar(INNER)) <= curveBytes(CINP) ==> err == nil
+//@   ensures @C17,C14 err == nil ==> isP8Der(PB)
+//@   ensures @C17,C14 err == nil && p8Alg(PB) == oid("1.2.840.10045.2.1") ==> typeis(key, "*crypto/ecdsa.PrivateKey") && isEcDer(INNER) && ecVer(INNER) == 1 && CINP >= 4 && curveId(KP.Curve) == CINP && BigVal(KP.D) == be(ecScalar(INNER)) && BigVal(KP.X) == sbmX(CINP, be(ecScalar(INNER))) && BigVal(KP.Y) == sbmY(CINP, be(ecScalar(INNER)))
+//@   ensures @C17,C14 err == nil && p8Alg(PB) == oid("1.2.840.113549.1.1.1") ==> typeis(key, "*crypto/rsa.PrivateKey") && pkcs1priv(unboxRef(key)) == INNER
+//@   ensures @C17,C14 isP8Der(PB) && p8Alg(PB) == oid("1.2.840.113549.1.1.1") && isPkcs1(INNER) ==> err == nil
+//@   ensures @C17,C14 isP8Der(PB) && p8Alg(PB) == oid("1.2.840.10045.2.1") && isEcDer(INNER) && ecVer(INNER) == 1 && CINP >= 4 && be(ecScalar(INNER)) < curveOrder(CINP) && blen(ecScalar(INNER)) <= curveBytes(CINP) ==> err == nil
 
 // The round trip of C17 for EC keys, composed from the two contracts above by the verifier (the function lives in
 // roundtrip_verif.go under the verif tag and is never called): for every valid key on one of the ten curves - scalar in
